@@ -146,6 +146,10 @@ class CustomFootnoteDef(footnote.FootnoteDef):
         before = text[line_start : match.start()].expandtabs(4)
         whole = text[line_start : match.end()].expandtabs(4)
         self._prefix: str = re.escape(whole[len(before) :])
+        # Continuation lines are indented by four columns. Marko's ` {1,4}` can give some of
+        # them back to an enclosed block, so that the second of two sibling list items
+        # (`    - b` / `    - c`) is read as nested in the first.
+        self._second_prefix: str = r" {4}"
 
 
 class CustomStrikethrough(gfm_elements.Strikethrough):
